@@ -164,7 +164,13 @@ func mutate(rng *Rng, e *xev) (*xev, string) {
 			return rndU256(rng)
 		}
 	}
-	switch rng.Intn(24) {
+	switch rng.Intn(25) {
+	case 24: // the same addresses with their powers exchanged
+		if len(m.members) > 1 {
+			i := rng.Intn(len(m.members) - 1)
+			m.members[i].Power, m.members[i+1].Power = m.members[i+1].Power, m.members[i].Power
+		}
+		return m, "member-powers-swapped"
 	case 0:
 		return m, "identical"
 	case 1:
@@ -286,17 +292,113 @@ func indexOf(l []string, s string) int {
 	return 0
 }
 
+// ---- boundary attack on the framing, using the hashed byte string as a black box ----
+type slot struct {
+	get func(*xev) []byte
+	set func(*xev, []byte)
+}
+
+func strSlot(f func(*xev) *string) slot {
+	return slot{func(e *xev) []byte { return []byte(*f(e)) }, func(e *xev, b []byte) { *f(e) = string(b) }}
+}
+
+func slotsOf(kind int) []slot {
+	coin := strSlot(func(e *xev) *string { return &e.coin })
+	sender := strSlot(func(e *xev) *string { return &e.sender })
+	receiver := strSlot(func(e *xev) *string { return &e.receiver })
+	rchain := strSlot(func(e *xev) *string { return &e.rchain })
+	txhash := strSlot(func(e *xev) *string { return &e.txhash })
+	payer := strSlot(func(e *xev) *string { return &e.payer })
+	scope := slot{func(e *xev) []byte { return e.scope }, func(e *xev, b []byte) { e.scope = append([]byte{}, b...) }}
+	retdata := slot{func(e *xev) []byte { return e.retdata }, func(e *xev, b []byte) { e.retdata = append([]byte{}, b...) }}
+	switch kind {
+	case 1:
+		return []slot{coin, sender, receiver, txhash}
+	case 2:
+		return []slot{coin, sender, rchain, receiver, txhash}
+	case 3:
+		return []slot{coin, txhash, payer}
+	case 4:
+		return []slot{scope, retdata, txhash}
+	}
+	return nil
+}
+
+func preimage(e *xev) []byte {
+	e.event().Hash()
+	return append([]byte{}, types.LastClaimPreimage...)
+}
+
+// absorb builds two different events of one type: one whose field i swallows whatever the
+// implementation writes between the contents of fields i and j, and one in which field j carries
+// that material instead.  With a sound framing (length prefixes) their hashed strings differ; with
+// concatenation, constant delimiters or constant prefixes they coincide.
+func absorb(rng *Rng, e *xev) (*xev, *xev, bool) {
+	slots := slotsOf(e.kind)
+	if len(slots) < 2 {
+		return nil, nil, false
+	}
+	i := rng.Intn(len(slots) - 1)
+	j := i + 1 + rng.Intn(len(slots)-i-1)
+	a := []byte("Aq" + rndStr(rng, "abcdefgh", 4))
+	mk := []byte("~Mk" + rndStr(rng, "ijklmnop", 4))
+	bp := []byte("Bz" + rndStr(rng, "qrstuvwx", 3))
+	e2m := e.clone()
+	slots[i].set(e2m, a)
+	slots[j].set(e2m, mk)
+	p := preimage(e2m)
+	ia := bytes.Index(p, a)
+	if ia < 0 {
+		return nil, nil, false
+	}
+	im := bytes.Index(p[ia+len(a):], mk)
+	if im < 0 {
+		return nil, nil, false
+	}
+	mid2 := p[ia+len(a) : ia+len(a)+im]
+	suffix2 := p[ia+len(a)+im+len(mk):]
+	e1 := e.clone()
+	fi := append(append(append([]byte{}, a...), mid2...), bp...)
+	slots[i].set(e1, fi)
+	slots[j].set(e1, nil)
+	p1 := preimage(e1)
+	k := bytes.Index(p1, fi)
+	if k < 0 {
+		return nil, nil, false
+	}
+	t1 := p1[k+len(fi):]
+	if !bytes.HasSuffix(t1, suffix2) {
+		return e1, e2m, true
+	}
+	fj := append(append([]byte{}, bp...), t1[:len(t1)-len(suffix2)]...)
+	e2 := e.clone()
+	slots[i].set(e2, a)
+	slots[j].set(e2, fj)
+	return e1, e2, true
+}
+
 func runClaimCase(seed uint64, stats map[string]int) (V, V) {
 	rng := &Rng{s: seed}
 	e1 := genXev(rng)
-	e2, what := mutate(rng, e1)
+	var e2 *xev
+	var what string
+	if rng.Chance(1, 6) {
+		if x, y, ok := absorb(rng, e1); ok {
+			e1, e2, what = x, y, "absorb-separator"
+		}
+	}
+	if e2 == nil {
+		e2, what = mutate(rng, e1)
+	}
 	h1 := e1.event().Hash()
+	p1 := append([]byte{}, types.LastClaimPreimage...)
 	h2 := e2.event().Hash()
+	p2 := append([]byte{}, types.LastClaimPreimage...)
 	same := bytes.Equal(h1, h2)
 	stats[fmt.Sprintf("kind%d", e1.kind)]++
 	stats["mut_"+what]++
 	if same {
 		stats["equal_hashes"]++
 	}
-	return L(e1.val(), e2.val()), Bool(same)
+	return L(e1.val(), e2.val()), L(Bool(same), Bb(p1), Bb(p2))
 }
